@@ -70,6 +70,7 @@ theorem Env.runEvs_envOK {e : Env} (h : EnvOK e) (evs : List EnvEv) : EnvOK (e.r
 theorem Env.step_cases (e : Env) (job : Nat) (machine : Int) :
     ((e.step job machine).2 = .raised ∧ (e.step job machine).1 = e) ∨
     (∃ w', (e.step job machine).1 = { e with w := w' } ∧
+      e.w.dispatch job (e.w.s.jobIdx.getD job 0) (if machine == -1 then none else some machine) = (w', true) ∧
       (((e.step job machine).2 = .raised ∧ ({ e with w := w' } : Env).observation = none) ∨
        ∃ obs r d t av, (e.step job machine).2 = .ok obs r d t av ∧ ({ e with w := w' } : Env).observation = some obs)) := by
   unfold Env.step
@@ -85,11 +86,11 @@ theorem Env.step_cases (e : Env) (job : Nat) (machine : Int) :
       | true =>
         simp only
         cases ho : ({ e with w := w' } : Env).observation with
-        | none => exact Or.inr ⟨w', rfl, Or.inl ⟨rfl, ho⟩⟩
-        | some o => exact Or.inr ⟨w', rfl, Or.inr ⟨_, _, _, _, _, rfl, ho⟩⟩
+        | none => exact Or.inr ⟨w', rfl, rfl, Or.inl ⟨rfl, ho⟩⟩
+        | some o => exact Or.inr ⟨w', rfl, rfl, Or.inr ⟨_, _, _, _, _, rfl, ho⟩⟩
 
 theorem Env.step_ec (e : Env) (j : Nat) (m : Int) : (e.step j m).1.ec = e.ec ∧ (e.step j m).1.space = e.space := by
-  rcases Env.step_cases e j m with ⟨_, h⟩ | ⟨w', h, _⟩
+  rcases Env.step_cases e j m with ⟨_, h⟩ | ⟨w', h, _, _⟩
   · rw [h]; exact ⟨rfl, rfl⟩
   · rw [h]; exact ⟨rfl, rfl⟩
 
@@ -206,7 +207,7 @@ theorem C18_step_returns_observation (c : Cfg) (ec : EnvCfg) (e0 : Env) (hf : Fe
   simp only [Env.runEvs, List.foldl_append, List.foldl_cons, List.foldl_nil, Env.apply] at hobs
   obtain ⟨o, ho, _, hin, _⟩ := hobs
   change (Env.step e job machine).1.observation = some o at ho
-  rcases Env.step_cases e job machine with h | ⟨w', hw', h | ⟨obs, r, d, t, av, hok, hobs'⟩⟩
+  rcases Env.step_cases e job machine with h | ⟨w', hw', _, h | ⟨obs, r, d, t, av, hok, hobs'⟩⟩
   · exact Or.inr h
   · rw [hw', h.2] at ho; cases ho
   · rw [hw', hobs'] at ho; cases ho
@@ -388,5 +389,224 @@ theorem C18_step_reward (e : Env) (hs : SubsOK e.w) (o : FObs) (ho : e.w.heap[e.
     rw [hr]
     simp only [Env.lastReward, getD_of_some h1, h3, Option.getD_some]
   rw [this]; exact h2
+
+
+/-! ## the step-reward theorem over every reachable environment -/
+
+structure EnvOK2 (e : Env) : Prop where
+  subs : SubsOK e.w
+  rewSub : e.rew ∈ e.w.subs
+  rewKind : ∃ o, e.w.heap[e.rew]? = some o ∧ (o.kind = .makespanReward ∨ o.kind = .idleReward)
+  cinv : CInv e.w.cfg.I e.w.s
+
+theorem good_constructFeats : ∀ (feats : List (FKind × Option (List FT))) (w w' : FWorld) (ids : List Nat),
+    constructFeats w feats = some (w', ids) → Good w w'
+  | [], w, w', ids, h => by simp only [constructFeats] at h; cases h; exact Good.refl w
+  | (k, fts) :: rest, w, w', ids, h => by
+    simp only [constructFeats] at h
+    by_cases hk : (!k.isFeature || k == .composite) = true
+    · rw [if_pos hk] at h; cases h
+    · rw [if_neg hk] at h
+      have g1 := good_construct w k fts
+      rcases hc : w.construct k fts with ⟨w1, oid⟩
+      rw [hc] at h g1
+      cases oid with
+      | none => simp only at h; cases h
+      | some id =>
+        simp only at h g1
+        cases hr : constructFeats w1 rest with
+        | none => rw [hr] at h; cases h
+        | some r =>
+          obtain ⟨w2, ids2⟩ := r
+          rw [hr] at h
+          simp only [Option.some.injEq, Prod.mk.injEq] at h
+          obtain ⟨rfl, _⟩ := h
+          exact g1.trans (good_constructFeats rest w1 w2 ids2 hr)
+
+theorem construct_plain_mem (w w' : FWorld) (kind : FKind) (id : Nat)
+    (hk : kind = .unscheduled ∨ kind = .history ∨ kind = .makespanReward ∨ kind = .idleReward)
+    (h : w.construct kind none = (w', some id)) : id ∈ w'.subs := by
+  rcases hk with rfl | rfl | rfl | rfl
+  all_goals
+    simp only [FWorld.construct] at h
+    split at h
+    · cases h
+    · simp only [FWorld.push, Prod.mk.injEq, Option.some.injEq] at h
+      obtain ⟨rfl, rfl⟩ := h
+      simp
+
+theorem Env.make_envOK2 {c : Cfg} {ec : EnvCfg} {e : Env} (hf : FeatsOK ec.feats) (h : Env.make c ec = some e) :
+    EnvOK2 e := by
+  have hok := Env.make_envOK hf h
+  unfold Env.make at h
+  cases h1 : constructFeats (FWorld.init c) ec.feats with
+  | none => rw [h1] at h; cases h
+  | some r1 =>
+    obtain ⟨w1, ids⟩ := r1
+    rw [h1] at h
+    simp only at h
+    have g1 := good_constructFeats ec.feats _ w1 ids h1
+    obtain ⟨hw1, _, _⟩ := constructFeats_ok ec.feats _ (heapOK_init c) hf w1 ids h1
+    rcases h2 : w1.constructComposite (some ids) with ⟨w2, ocomp⟩
+    have g2 := good_constructComposite w1 (some ids)
+    rw [h2] at h g2
+    cases ocomp with
+    | none => simp only at h; cases h
+    | some comp =>
+      simp only at h g2
+      rcases h3 : w2.constructResidual (build ec.builder c.I) ec.rmMach ec.rmJob with ⟨w3, oupd⟩
+      have g3 := good_constructResidual w2 (build ec.builder c.I) ec.rmMach ec.rmJob
+      rw [h3] at h g3
+      cases oupd with
+      | none => simp only at h; cases h
+      | some upd =>
+        simp only at h g3
+        by_cases hrw : (ec.reward != .makespanReward && ec.reward != .idleReward) = true
+        · rw [if_pos hrw] at h; cases h
+        · rw [if_neg hrw] at h
+          have hrk : ec.reward = .makespanReward ∨ ec.reward = .idleReward := by
+            cases hr : ec.reward <;> simp [hr] at hrw ⊢
+          have hplain : ec.reward = .unscheduled ∨ ec.reward = .history ∨ ec.reward = .makespanReward ∨ ec.reward = .idleReward := by
+            rcases hrk with h | h
+            · exact Or.inr (Or.inr (Or.inl h))
+            · exact Or.inr (Or.inr (Or.inr h))
+          have g4 := good_construct w3 ec.reward none
+          rcases h4 : w3.construct ec.reward none with ⟨w4, orew⟩
+          rw [h4] at h g4
+          cases orew with
+          | none => simp only at h; cases h
+          | some rew =>
+            simp only at h g4
+            have hmem4 := construct_plain_mem w3 w4 ec.reward rew hplain h4
+            have g5 := good_construct w4 .history none
+            rcases h5 : w4.construct .history none with ⟨w5, ohist⟩
+            rw [h5] at h g5
+            cases ohist with
+            | none => simp only at h; cases h
+            | some hid =>
+              simp only [Option.some.injEq] at h g5
+              subst h
+              have gall := g1.trans (g2.trans (g3.trans (g4.trans g5)))
+              obtain ⟨t5, ht5⟩ := g5.pre
+              refine ⟨gall.ok (subsOK_init c), by simp only; rw [ht5]; exact List.mem_append_left _ hmem4, ?_, ?_⟩
+              · -- the kind of the reward observer
+                have hw3 : HeapOK w3 := by
+                  obtain ⟨hw2, _, _⟩ := constructComposite_ok hw1 ids
+                    (fun i hi => (constructFeats_ok ec.feats _ (heapOK_init c) hf w1 ids h1).2.2 i hi) w2 comp h2
+                  exact (constructResidual_ok hw2 _ (C17_built_inv ec.builder c.I) _ _ w3 upd h3).1
+                obtain ⟨hw4, _, k4⟩ := construct_plain hw3 ec.reward hplain
+                rw [h4] at hw4 k4
+                obtain ⟨o4, ho4, hk4⟩ := k4 rew rfl
+                obtain ⟨_, e5, _⟩ := construct_plain hw4 .history (Or.inr (Or.inl rfl))
+                rw [h5] at e5
+                obtain ⟨o5, ho5, hk5, _⟩ := e5.step rew o4 ho4
+                exact ⟨o5, ho5, by rw [hk5, hk4]; exact hrk⟩
+              · simp only
+                rw [gall.st.1, gall.st.2]
+                exact cinv_init c.I
+
+theorem EnvOK2.step {e : Env} (h : EnvOK e) (h2 : EnvOK2 e) (hv : Valid e.w.cfg.I) (job : Nat) (machine : Int) :
+    EnvOK2 (e.step job machine).1 := by
+  rcases Env.step_cases e job machine with ⟨_, he⟩ | ⟨w', he, hdd, _⟩
+  · rw [he]; exact h2
+  · rw [he]
+    have hw' : w' = (e.w.dispatch job (e.w.s.jobIdx.getD job 0) (if machine == -1 then none else some machine)).1 := by
+      rw [hdd]
+    obtain ⟨a, ⟨t, ht⟩, cfgeq, ci⟩ := dispatch_keeps e.w job (e.w.s.jobIdx.getD job 0) (if machine == -1 then none else some machine)
+    obtain ⟨_, ex⟩ := dispatch_ok' h.heap job (e.w.s.jobIdx.getD job 0) (if machine == -1 then none else some machine)
+    rw [← hw'] at a ht cfgeq ci ex
+    obtain ⟨o, ho, hk⟩ := h2.rewKind
+    obtain ⟨o', ho', hk', _⟩ := ex.step _ o ho
+    exact ⟨a h2.subs, by simp only; rw [ht]; exact List.mem_append_left _ h2.rewSub,
+      ⟨o', ho', by rw [hk']; exact hk⟩, by simp only; rw [cfgeq]; exact ci hv h2.cinv⟩
+
+theorem EnvOK2.reset {e : Env} (h : EnvOK e) (h2 : EnvOK2 e) : EnvOK2 e.reset.1 := by
+  unfold Env.reset
+  obtain ⟨a, ⟨t, ht⟩, cfgeq, ci⟩ := reset_keeps e.w
+  obtain ⟨_, ex⟩ := reset_ok' h.heap
+  obtain ⟨o, ho, hk⟩ := h2.rewKind
+  obtain ⟨o', ho', hk', _⟩ := ex.step _ o ho
+  exact ⟨a h2.subs, by simp only; rw [ht]; exact List.mem_append_left _ h2.rewSub,
+    ⟨o', ho', by rw [hk']; exact hk⟩, by simp only; rw [cfgeq]; exact ci⟩
+
+theorem Env.runEvs_cfg (e : Env) (evs : List EnvEv) (h : EnvOK e) : (e.runEvs evs).w.cfg = e.w.cfg := by
+  induction evs generalizing e with
+  | nil => rfl
+  | cons ev t ih =>
+    simp only [Env.runEvs, List.foldl_cons]
+    cases ev with
+    | step j m =>
+      have h1 := Env.step_envOK h j m
+      have := ih (e := (e.step j m).1) h1
+      simp only [Env.runEvs] at this
+      rw [Env.apply, this]
+      rcases Env.step_cases e j m with ⟨_, he⟩ | ⟨w', he, hdd, _⟩
+      · rw [he]
+      · rw [he]
+        have := (dispatch_keeps e.w j (e.w.s.jobIdx.getD j 0) (if m == -1 then none else some m)).2.2.1
+        rw [hdd] at this; exact this
+    | reset =>
+      have h1 := Env.reset_envOK h
+      have := ih (e := e.reset.1) h1
+      simp only [Env.runEvs] at this
+      rw [Env.apply, this]
+      exact (reset_keeps e.w).2.2.1
+
+theorem Env.runEvs_envOK2 {e : Env} (h : EnvOK e) (h2 : EnvOK2 e) (hv : Valid e.w.cfg.I) (evs : List EnvEv) :
+    EnvOK2 (e.runEvs evs) := by
+  induction evs generalizing e with
+  | nil => exact h2
+  | cons ev t ih =>
+    simp only [Env.runEvs, List.foldl_cons]
+    cases ev with
+    | step j m =>
+      have h1 := Env.step_envOK h j m
+      have hcfg : (e.step j m).1.w.cfg = e.w.cfg := by
+        have := Env.runEvs_cfg e [.step j m] h
+        simpa [Env.runEvs, Env.apply] using this
+      exact ih h1 (EnvOK2.step h h2 hv j m) (by show Valid (e.step j m).1.w.cfg.I; rw [hcfg]; exact hv)
+    | reset =>
+      have h1 := Env.reset_envOK h
+      have hcfg : e.reset.1.w.cfg = e.w.cfg := (reset_keeps e.w).2.2.1
+      exact ih h1 (EnvOK2.reset h h2) (by show Valid e.reset.1.w.cfg.I; rw [hcfg]; exact hv)
+
+/-- **C13 / C18 (step reward, every reachable environment).** For an environment built by the constructor on a valid
+instance and driven through any sequence of steps and resets: the reward an accepted step returns is the single
+reward the reward observer emitted for that step (its list grew by exactly that entry). -/
+theorem C18_step_reward_reachable (c : Cfg) (ec : EnvCfg) (e0 : Env) (hf : FeatsOK ec.feats) (hv : Valid c.I)
+    (hmk : Env.make c ec = some e0) (evs : List EnvEv) (job : Nat) (machine : Int)
+    (obs : EObs) (r : Int) (d t : Bool) (av : List OpRef)
+    (h : ((e0.runEvs evs).step job machine).2 = .ok obs r d t av) :
+    ∃ o o', (e0.runEvs evs).w.heap[e0.rew]? = some o ∧
+      ((e0.runEvs evs).step job machine).1.w.heap[e0.rew]? = some o' ∧ o'.rewards = o.rewards ++ [r] := by
+  obtain ⟨hok, hcfg, _⟩ := Env.make_envOK hf hmk
+  have hok2 := Env.make_envOK2 hf hmk
+  have hv0 : Valid e0.w.cfg.I := by rw [hcfg]; exact hv
+  have hrun := Env.runEvs_envOK hok evs
+  have hrun2 := Env.runEvs_envOK2 hok hok2 hv0 evs
+  have hrew : (e0.runEvs evs).rew = e0.rew := by
+    have : ∀ (evs : List EnvEv) (e : Env), (e.runEvs evs).rew = e.rew := by
+      intro evs
+      induction evs with
+      | nil => intro e; rfl
+      | cons ev t ih =>
+        intro e
+        simp only [Env.runEvs, List.foldl_cons]
+        have := ih (e.apply ev)
+        simp only [Env.runEvs] at this
+        rw [this]
+        cases ev with
+        | step j m =>
+          rcases Env.step_cases e j m with ⟨_, he⟩ | ⟨w', he, _, _⟩
+          · simp only [Env.apply]; rw [he]
+          · simp only [Env.apply]; rw [he]
+        | reset => rfl
+    exact this evs e0
+  obtain ⟨o, ho, hk⟩ := hrun2.rewKind
+  have hvr : Valid (e0.runEvs evs).w.cfg.I := by rw [Env.runEvs_cfg e0 evs hok]; exact hv0
+  obtain ⟨o', h1, h2⟩ := C18_step_reward (e0.runEvs evs) hrun2.subs o ho hk hrun2.rewSub hvr hrun2.cinv
+    job machine obs r d t av h
+  rw [hrew] at ho h1
+  exact ⟨o, o', ho, h1, h2⟩
 
 end JS
